@@ -4,6 +4,7 @@
      A <inst> l1 l2 ...             add a clause to the database of <inst>       -> ok
      C <inst> l1 l2 ...             check a clause against the database of <inst> (then add it)
                                     -> rup | cex <total assignment as literals> | implied | unknown
+                                       | notrup (rejected; search budget of 3 per run used up)
      P <final> ; <core names> ; <admitted leaf names | *> ; <step> ; <step> ...
          step =  L <name> l1 l2 ...                          leaf
               |  D <name> l1 l2 ... : <first> <c1> <p1> <c2> <p2> ...   derived: stated clause, chain
@@ -33,12 +34,16 @@ let vars_of (cls : int list list) =
 let idbs : (string, int list list ref) Hashtbl.t = Hashtbl.create 16
 let idb inst = match Hashtbl.find_opt idbs inst with Some r -> r | None -> let r = ref [] in Hashtbl.add idbs inst r; r
 
+(* the failing-input search (verified dpll) is run for the first rejected clauses of a run only *)
+let searches_left = ref 3
+
 let check inst lits =
   let d = db inst and id = idb inst in
   let c = List.map z_of_int lits in
   let ans =
     if rup !d c then "rup"
-    else match countermodel !d c with
+    else if !searches_left <= 0 then "notrup"
+    else match (decr searches_left; countermodel !d c) with
       | DSat m ->
         let a = total_of m in
         let vs = vars_of (lits :: !id) in
@@ -101,7 +106,7 @@ let () =
     let l = input_line stdin in
     let out =
       try match words l with
-        | ["R"] -> Hashtbl.reset dbs; Hashtbl.reset idbs; "ok"
+        | ["R"] -> Hashtbl.reset dbs; Hashtbl.reset idbs; searches_left := 3; "ok"
         | "A" :: inst :: lits -> let li = ints lits in
           let d = db inst and id = idb inst in d := List.map z_of_int li :: !d; id := li :: !id; "ok"
         | "C" :: inst :: lits -> check inst (ints lits)
